@@ -1,9 +1,9 @@
 package main
 
 import (
-	"math"
 	"errors"
 	"fmt"
+	"math"
 	"strings"
 
 	"github.com/welllog/golib/slicez"
@@ -147,6 +147,7 @@ func (c *c14Case) slice(i int) []int {
 	}
 	return c.arrs[d[0]-1][d[1] : d[1]+d[2] : d[1]+d[3]]
 }
+
 // a token within 1000 of +-2^60 stands for the int that far from MaxInt / MinInt (tokens must stay below 2^61)
 func c14Ext(v int64) int {
 	switch {
@@ -373,17 +374,37 @@ func c14FlexImpl(in []int64, record *[]int64) []int64 {
 		}
 		return o
 	}
+	// every other Append/Prepend passes its values as a spread slice with plenty of spare capacity and overwrites that
+	// buffer right after the call: the FlexSlice must own its memory (an implementation that adopts the caller's buffer
+	// to save an allocation shows in the Values observed after the call)
+	spare := func(v []int, at int) ([]int, func()) {
+		if at%2 == 0 {
+			return v, func() {}
+		}
+		buf := make([]int, len(v), 2*(len(v)+len(f.Values))+16)
+		copy(buf, v)
+		return buf, func() {
+			buf = buf[:cap(buf)]
+			for i := range buf {
+				buf[i] = -777
+			}
+		}
+	}
 	for _, o := range ops {
 		var res []int64
 		b := o.body
 		switch b[0] {
 		case 0:
-			f.Append(toInts(b[2:])...)
+			arg, done := spare(toInts(b[2:]), o.at)
+			f.Append(arg...)
+			done()
 			if record != nil {
 				(*record)[o.at+1] = int64(cap(f.Values))
 			}
 		case 1:
-			f.Prepend(toInts(b[1:])...)
+			arg, done := spare(toInts(b[1:]), o.at)
+			f.Prepend(arg...)
+			done()
 		case 2:
 			v, ok := f.Get(int(b[1]))
 			res = []int64{int64(v), B(ok)}
@@ -1144,6 +1165,6 @@ func c14Describe(in []int64) string {
 }
 
 func init() {
-	Register(&Prop{ID: "C14", Num: 14, SpecMode: "rel", Gen: c14Gen, Impl: c14Impl, Shrink: c14Shrink, Describe: c14Describe,
+	Register(&Prop{ID: "C14", Pure: true, Num: 14, SpecMode: "rel", Gen: c14Gen, Impl: c14Impl, Shrink: c14Shrink, Describe: c14Describe,
 		Rule: "slices.go: arguments are windows (array, offset, len, cap) on real arrays, element values 0..3 (sometimes 0..7), lengths 0..8 and nil; dst layouts nil / own buffer with capacity 0, small, large / s1[:0] / s1 / s2[:0] / s1[:0:c] (spills) / shifted window of s1's array; s2 may be s1 or a sub-window of it; index, length and chunk arguments -2..10 and +-2^60; exhaustive small scopes as listed in the notes. FlexSlice: 1-60 operations from the zero value or from a slice with spare capacity (caps 8, 9, 12, 16, 17, 32, 36 and lengths at cap/4, cap/4+1), bursts of 0/1/2/3/5/9/17 values, the capacity seen after every Append recorded into the case. distinct = distinct case; non-trivial = a selection that keeps at least one and rejects at least one element / a scalar query on a slice of length >= 2 / a clamping call on a non-empty slice / a chunking with 1 <= size < len / a FlexSlice sequence of >= 3 operations during which the capacity changed"})
 }
